@@ -2,9 +2,12 @@
    Statements only: every theorem is closed by [exact] of a lemma proved in C16/*.v;
    ./check evaluates Print Assumptions for each on every run.
 
-   Reading guide.  C16/Model.v: [vcf_body] = the data lines VcfWriter.write produces,
-   as the code is (incl. the position-zero check on the raw site_mask argument);
-   [vcf_body_fixed] = the same with the one-word repair `~self.site_mask`.
+   Reading guide.  C16/Model.v: [vcf_body_current] = the data lines VcfWriter.write
+   produces, as /repo is now — this is what the per-run correspondence evaluates; it is
+   selected by the regenerated fact c16_poszero_uses_raw_site_mask and, since the fix
+   f5b3ea9, equals [vcf_body_fixed] (position-zero check on `~self.site_mask`).
+   [vcf_body_pinned] = the pre-fix variant of commit 380c75d (check on the raw site_mask
+   argument, finding F6); theorems named *_pinned* are a historical record about it.
    C16/Spec.v: [line_text] = CHROM POS ID REF ALT . PASS . GT + one '|'-joined field per
    individual, [gt_char] = '.' for a masked or missing call, [unmasked] = the
    (id, site) pairs whose mask entry is False, in site order; [wf_input] = a non-empty
@@ -18,25 +21,29 @@ Open Scope Z_scope.
 
 (* One line per unmasked site, in site order; POS = transformed position, ID = site
    id, REF = first allele, ALT = the remaining alleles (or "."), phased GT fields
-   regrouped by individual, '.' for missing / masked calls.  (Repaired check.) *)
-Theorem vcf_lines_exact : forall inp lines, wf_input inp -> vcf_body_fixed inp = Ok lines ->
+   regrouped by individual, '.' for missing / masked calls. *)
+Theorem vcf_lines_exact : forall inp lines, wf_input inp -> vcf_body_current inp = Ok lines ->
   lines = map (fun x => line_text (vi_contig inp) (vi_ploidies inp) (fst x) (snd x))
               (unmasked (vi_sites inp) (mask_bools (length (vi_sites inp)) (vi_site_mask inp))).
-Proof. exact vcf_lines_exact_fixed. Qed.
+Proof. exact vcf_lines_exact_current. Qed.
 
 (* ... with the exact error behaviour: ValueError iff the mask has the wrong length,
    an UNMASKED site has transformed position 0 (unless allowed), more than 9 alleles
    or a wrong-length sample mask. *)
-Theorem vcf_body_is_spec : forall inp, wf_input inp -> vcf_body_fixed inp = spec_body inp.
-Proof. exact vcf_body_fixed_spec. Qed.
+Theorem vcf_body_is_spec : forall inp, wf_input inp -> vcf_body_current inp = spec_body inp.
+Proof. exact vcf_body_current_spec. Qed.
+
+(* The model evaluated against /repo on every run IS the repaired one. *)
+Theorem vcf_body_current_is_fixed : vcf_body_current = vcf_body_fixed.
+Proof. exact current_is_fixed. Qed.
 
 (* "up to 9 alleles per site": the limit in VcfWriter.write (regenerated from /repo). *)
 Theorem allele_limit : c16_max_alleles = 9.
 Proof. exact allele_limit_is_nine. Qed.
 
-(* The code as it is equals the repaired one whenever site_mask is None or a numpy
-   bool array — so both theorems above hold for the unchanged code on those forms. *)
-Theorem vcf_body_bool_masks : forall inp, bool_form (vi_site_mask inp) -> vcf_body inp = vcf_body_fixed inp.
+(* Historical: the pre-fix code already equalled the repaired one whenever site_mask was
+   None or a numpy bool array. *)
+Theorem vcf_body_bool_masks_pinned : forall inp, bool_form (vi_site_mask inp) -> vcf_body_pinned inp = vcf_body_fixed inp.
 Proof. exact bool_masks_as_fixed. Qed.
 
 (* The template mechanism of write(): building the int8 array once and overwriting the
@@ -81,47 +88,48 @@ Proof. exact (fun nodes ni => conj (mapping_default_individuals nodes ni) unique
 
 (* Masked sites influence neither the output nor whether an error is raised:
    two inputs that agree on everything except the content (position, alleles,
-   genotypes, sample-mask row) of MASKED sites behave identically — repaired check; *)
+   genotypes, sample-mask row) of MASKED sites behave identically. *)
 Theorem masked_sites_irrelevant : forall inp inp',
   vi_contig inp = vi_contig inp' -> vi_ploidies inp = vi_ploidies inp' ->
   vi_allow_position_zero inp = vi_allow_position_zero inp' ->
   mask_bools (length (vi_sites inp)) (vi_site_mask inp) = mask_bools (length (vi_sites inp')) (vi_site_mask inp') ->
   agree (vi_sites inp) (vi_sites inp') (mask_bools (length (vi_sites inp)) (vi_site_mask inp)) ->
-  vcf_body_fixed inp = vcf_body_fixed inp'.
-Proof. exact masked_sites_irrelevant_fixed. Qed.
+  vcf_body_current inp = vcf_body_current inp'.
+Proof. exact masked_sites_irrelevant_current. Qed.
 
-(* — and the code as it is, for None / bool-array masks. *)
-Theorem masked_sites_irrelevant_as_coded_bool_masks : forall inp inp',
+(* Historical: it held for the pre-fix code with None / bool-array masks only. *)
+Theorem masked_sites_irrelevant_bool_masks_pinned : forall inp inp',
   bool_form (vi_site_mask inp) -> bool_form (vi_site_mask inp') ->
   vi_contig inp = vi_contig inp' -> vi_ploidies inp = vi_ploidies inp' ->
   vi_allow_position_zero inp = vi_allow_position_zero inp' ->
   mask_bools (length (vi_sites inp)) (vi_site_mask inp) = mask_bools (length (vi_sites inp')) (vi_site_mask inp') ->
   agree (vi_sites inp) (vi_sites inp') (mask_bools (length (vi_sites inp)) (vi_site_mask inp)) ->
-  vcf_body inp = vcf_body inp'.
+  vcf_body_pinned inp = vcf_body_pinned inp'.
 Proof. exact masked_sites_irrelevant_bool_masks. Qed.
 
-(* FALSE for the code as it is with other mask forms (finding F6): a masked site's
-   position decides whether ValueError is raised (integer-array mask [1; 0]) ... *)
-Theorem masked_site_position_zero_refuted : exists inp inp',
+(* Historical record about the PINNED (pre-fix) variant only — finding F6, repaired by
+   /repo f5b3ea9: there a masked site's position decided whether ValueError was raised
+   (integer-array mask [1; 0]) ... *)
+Theorem masked_site_position_zero_pinned_refuted : exists inp inp',
   vi_contig inp = vi_contig inp' /\ vi_ploidies inp = vi_ploidies inp' /\
   vi_allow_position_zero inp = vi_allow_position_zero inp' /\ vi_site_mask inp = vi_site_mask inp' /\
   agree (vi_sites inp) (vi_sites inp') (mask_bools (length (vi_sites inp)) (vi_site_mask inp)) /\
   wf_input inp /\ wf_input inp' /\
-  vcf_body inp <> vcf_body inp' /\ vcf_body_fixed inp = vcf_body_fixed inp'.
-Proof. exact BodyProofs.masked_site_position_zero_refuted. Qed.
+  vcf_body_pinned inp <> vcf_body_pinned inp' /\ vcf_body_fixed inp = vcf_body_fixed inp'.
+Proof. exact BodyProofs.masked_site_position_zero_pinned_refuted. Qed.
 
-(* ... an unmasked site at position 0 is written although allow_position_zero=False ... *)
-Theorem unmasked_position_zero_missed_refuted : exists inp lines,
+(* ... an unmasked site at position 0 was written although allow_position_zero=False ... *)
+Theorem unmasked_position_zero_missed_pinned_refuted : exists inp lines,
   wf_input inp /\ vi_allow_position_zero inp = false /\
   In (0, site0 0) (unmasked (vi_sites inp) (mask_bools (length (vi_sites inp)) (vi_site_mask inp))) /\
-  vcf_body inp = Ok lines /\ vcf_body_fixed inp = Err E_VALUE.
-Proof. exact BodyProofs.unmasked_position_zero_missed_refuted. Qed.
+  vcf_body_pinned inp = Ok lines /\ vcf_body_fixed inp = Err E_VALUE.
+Proof. exact BodyProofs.unmasked_position_zero_missed_pinned_refuted. Qed.
 
-(* ... and a python list / tuple mask is a TypeError whenever allow_position_zero=False. *)
-Theorem site_mask_list_typeerror : forall contig ps sites l,
+(* ... and a python list / tuple mask was a TypeError whenever allow_position_zero=False. *)
+Theorem site_mask_list_typeerror_pinned : forall contig ps sites l,
   length l = length sites ->
-  vcf_body (mk_input contig ps sites (MPyList l) false) = Err E_TYPE.
-Proof. exact list_mask_typeerror. Qed.
+  vcf_body_pinned (mk_input contig ps sites (MPyList l) false) = Err E_TYPE.
+Proof. exact list_mask_typeerror_pinned. Qed.
 
 (* position_transform="legacy": strictly increasing positions above 0, and the identity
    on positions that already are. *)
